@@ -175,6 +175,15 @@ class DropletTrack:
             return None
         else:
             d0 = self.first
+            for droplet in self.droplets:
+                if (
+                    droplet.__class__ is not d0.__class__
+                    or droplet.data.dtype != d0.data.dtype
+                ):
+                    raise TypeError(
+                        "DropletTrack data cannot be stored contiguously if it contains "
+                        "droplets of different classes or with different data types"
+                    )
             dtype = [("time", "f8")] + d0.data.dtype.descr
             result = np.empty(len(self), dtype=dtype)
             for i in range(len(self)):
